@@ -6,6 +6,7 @@ NLIST_OK = 'forall(q, 0, len(pair_assignments_with_none), implies(pair_assignmen
 PRE = ['sizes_ok(self)', LIST_OK]
 NPRE = ['sizes_ok(self)', NLIST_OK]
 PA = {'pair_assignments': ('list', 'ref')}
+BINARY_VALUES = 'forall(i, 0, len(self.pairs), forall(c, 0, len(self.pairs[i]), solved(self.pairs[i][c].lp_var) == 0 or solved(self.pairs[i][c].lp_var) == 1))'
 PAN = {'pair_assignments_with_none': ('list', 'ref')}
 
 CONTRACTS = {
@@ -182,13 +183,41 @@ CONTRACTS = {
  # ---- reading the matching back from the solution values (C01)
  M + '_get_pair_assignments': dict(
     locals={'pair_assignments': ('list', 'ref')}, theory=['listsets'],
-    requires=['sizes_ok(self)', 'pairs_ok(self)', 'has_vars(self.pairs)'],
+    requires=['sizes_ok(self)', 'pairs_ok(self)', 'has_vars(self.pairs)', ('reported-values-are-0-or-1', BINARY_VALUES)],
     defs={'chosen': (['r', 'rows', 'upto'], 'exists(i, 0, rows, exists(c, 0, len(self.pairs[i]), self.pairs[i][c] == r and solved(self.pairs[i][c].lp_var) != 0))'
-                                             ' or exists(c, 0, upto, self.pairs[rows][c] == r and solved(self.pairs[rows][c].lp_var) != 0)')},
-    loops={0: dict(invariant=['forall(r, (ref(r) in elems(pair_assignments)) == chosen(ref(r), _k, 0))']),
-           1: dict(invariant=['forall(r, (ref(r) in elems(pair_assignments)) == chosen(ref(r), _k0, _k))'])},
+                                             ' or exists(c, 0, upto, self.pairs[rows][c] == r and solved(self.pairs[rows][c].lp_var) != 0)'),
+          # the reported value of the pair's variable (0 or 1)
+          'X': (['i', 'c'], 'solved(self.pairs[i][c].lp_var)'),
+          'PSP': (['j', 'rows', 'upto'], 'Sum(i, rows, Sum(c, len(self.pairs[i]), ite(self.pairs[i][c].project_index == j, X(i, c), 0)))'
+                                         ' + Sum(c, upto, ite(self.pairs[rows][c].project_index == j, X(rows, c), 0))'),
+          'PSL': (['k', 'rows', 'upto'], 'Sum(i, rows, Sum(c, len(self.pairs[i]), ite(self.pairs[i][c].lecturer_index == k, X(i, c), 0)))'
+                                         ' + Sum(c, upto, ite(self.pairs[rows][c].lecturer_index == k, X(rows, c), 0))'),
+          # a student's load is the sum of the values in that student's own row (every pair sits in its own student's row)
+          'PSS': (['s', 'rows', 'upto'], 'ite(s < rows, solsum(self.pairs[s]), ite(s == rows, solsum_upto(self.pairs[rows], upto), 0))'),
+          'R': ([], 'pair_assignments')},
+    loops={0: dict(invariant=['forall(r, (ref(r) in elems(pair_assignments)) == chosen(ref(r), _k, 0))',
+                              ('entries-are-pairs', 'forall(q, 0, len(R()), R()[q] != None)'),
+                              ('project-loads', 'forall(j, 0, self.num_projects, loadP(R(), j) == PSP(j, _k, 0))'),
+                              ('lecturer-loads', 'forall(k, 0, self.num_lecturers, loadL(R(), k) == PSL(k, _k, 0))'),
+                              ('student-loads', 'forall(s, 0, self.num_students, loadS(R(), s) == PSS(s, _k, 0))')]),
+           1: dict(invariant=['forall(r, (ref(r) in elems(pair_assignments)) == chosen(ref(r), _k0, _k))',
+                              ('entries-are-pairs', 'forall(q, 0, len(R()), R()[q] != None)'),
+                              ('project-loads', 'forall(j, 0, self.num_projects, loadP(R(), j) == PSP(j, _k0, _k))'),
+                              ('lecturer-loads', 'forall(k, 0, self.num_lecturers, loadL(R(), k) == PSL(k, _k0, _k))'),
+                              ('student-loads-earlier-rows', 'forall(s, 0, _k0, loadS(R(), s) == solsum(self.pairs[s]))'),
+                              ('student-loads-this-row', 'loadS(R(), _k0) == solsum_upto(self.pairs[_k0], _k)'),
+                              ('student-loads-later-rows', 'forall(s, _k0 + 1, self.num_students, loadS(R(), s) == 0)')])},
+    use_lemmas={'loop1.body_end': [
+        ('SUM/ext', {'f': 'loadP_terms(R(), j, len(prev(R())))', 'g': 'loadP_terms(prev(R()), j, len(prev(R())))', 'n': 'len(prev(R()))'}, 'forall:j'),
+        ('SUM/ext', {'f': 'loadL_terms(R(), j, len(prev(R())))', 'g': 'loadL_terms(prev(R()), j, len(prev(R())))', 'n': 'len(prev(R()))'}, 'forall:j'),
+        ('SUM/ext', {'f': 'loadS_terms(R(), j, len(prev(R())))', 'g': 'loadS_terms(prev(R()), j, len(prev(R())))', 'n': 'len(prev(R()))'}, 'forall:j')]},
     returns=('list', 'ref'),
-    ensures=[('exactly-the-pairs-whose-variable-is-set', 'forall(r, (ref(r) in elems(result)) == chosen(ref(r), len(self.pairs), 0))')]),
+    ensures=[('exactly-the-pairs-whose-variable-is-set', 'forall(r, (ref(r) in elems(result)) == chosen(ref(r), len(self.pairs), 0))'),
+             ('entries-are-pairs', 'forall(q, 0, len(result), result[q] != None)'),
+             # the loads of the returned list are the numbers of set variables among the pairs of that project / lecturer / student
+             ('project-loads', 'forall(j, 0, self.num_projects, loadP(result, j) == PSP(j, len(self.pairs), 0))'),
+             ('lecturer-loads', 'forall(k, 0, self.num_lecturers, loadL(result, k) == PSL(k, len(self.pairs), 0))'),
+             ('student-loads', 'forall(s, 0, self.num_students, loadS(result, s) == PSS(s, len(self.pairs), 0))')]),
 
  M + '_get_pair_assignments_with_none': dict(
     locals={'pair_assignments': ('list', 'ref')},
@@ -202,15 +231,27 @@ CONTRACTS = {
  # ---- C14 / C11: what the result text shows.  status_code(self.pulp_status) is the code of the stored status (1 = Optimal, 0 = Not Solved).
  M + 'get_results': dict(
     params={'short_or_long': ('enumsym', 'Output_type'), 'stable_correctness': 'bool'},
+    ghost={'pc': 'bool'},          # were project closures allowed (-pc)?  Supplied by the caller; only the validity statement uses it
     requires=['sizes_ok(self)', 'pairs_ok(self)', 'has_vars(self.pairs)', 'self.num_lecturers >= 1',
               'short_or_long == Output_type.SHORT or short_or_long == Output_type.LONG',
-              'not stable_correctness'],          # the stability_correct line (check_stability on the solution) is covered by C06 + bounded runs
-    defs={'code': ([], 'status_code(self.pulp_status)'),
+              'not stable_correctness',          # the stability_correct line (check_stability on the solution) is covered by C06 + bounded runs
+              # T3 + the constraints (composition lemma C01/reported-matching-valid): when the stored status is Optimal the reported
+              # values are 0/1 and, counted over the pairs of each student / project / lecturer, respect the quotas
+              ('optimal-solution-is-binary', 'implies(code() == 1, ' + BINARY_VALUES + ')'),
+              ('optimal-solution-respects-the-quotas', 'implies(code() == 1, forall(s, 0, self.num_students, XS(s) <= 1)'
+               ' and forall(j, 0, self.num_projects, (pc and XP(j) == 0) or (self.proj_lower_quotas[j] <= XP(j) and XP(j) <= self.proj_upper_quotas[j]))'
+               ' and forall(k, 0, self.num_lecturers, self.lec_lower_quotas[k] <= XL(k) and XL(k) <= self.lec_upper_quotas[k]))')],
+    defs={'X': (['i', 'c'], 'solved(self.pairs[i][c].lp_var)'),
+          'XP': (['j'], 'Sum(i, len(self.pairs), Sum(c, len(self.pairs[i]), ite(self.pairs[i][c].project_index == j, X(i, c), 0))) + Sum(c, 0, ite(self.pairs[len(self.pairs)][c].project_index == j, X(len(self.pairs), c), 0))'),
+          'XL': (['k'], 'Sum(i, len(self.pairs), Sum(c, len(self.pairs[i]), ite(self.pairs[i][c].lecturer_index == k, X(i, c), 0))) + Sum(c, 0, ite(self.pairs[len(self.pairs)][c].lecturer_index == k, X(len(self.pairs), c), 0))'),
+          'XS': (['s'], 'solsum(self.pairs[s])'),
+          'code': ([], 'status_code(self.pulp_status)'),
           'elapsed': ([], 'self.time_after_solve - self.time_start'),
           'timeout': ([], 'self.time_limit != None and (code() == 0 or elapsed() > self.time_limit)'),
           'shows_matching': ([], "has_text(result, 'matching: ') or has_text(result, 'size: ') or has_text(result, 'cost: ') or has_text(result, 'profile: ') or has_text(result, 'Student_assignments')")},
     returns=('str', 'results'), late_locals={'pair_assignments': ('list', 'ref')},
-    ensures=[('no-matching-unless-the-stored-status-is-Optimal', 'implies(code() != 1, not shows_matching())'),
+    ensures=[('the-printed-matching-is-valid', 'implies(code() == 1 and not timeout(), valid_list(self, pair_assignments, pc))'),      # C01
+             ('no-matching-unless-the-stored-status-is-Optimal', 'implies(code() != 1, not shows_matching())'),
              ('no-matching-on-timeout', 'implies(timeout(), not shows_matching())'),
              ('timeout-line-exactly-when-a-limit-was-exceeded-or-left-unsolved', "has_text(result, 'Timeout: ') == timeout()"),
              ('otherwise-the-stored-status-is-shown', "implies(not timeout(), after(result, 'pulp_status: ') == self.pulp_status)"),
@@ -238,26 +279,46 @@ CONTRACTS = {
     theory=['listsets'],
     requires=['sizes_ok(self)', 'pairs_ok(self)'],
     defs={'inrow': (['r', 'i', 'upto'], 'exists(c, 0, upto, self.pairs[i][c] == r)'),
-          'seen': (['r', 'rows', 'upto'], 'exists(i, 0, rows, inrow(r, i, len(self.pairs[i]))) or inrow(r, rows, upto)')},
+          'seen': (['r', 'rows', 'upto'], 'exists(i, 0, rows, inrow(r, i, len(self.pairs[i]))) or inrow(r, rows, upto)'),
+          # sum identity, for an ARBITRARY weight W of pair objects: the weights on list j add up to the weights of the pairs with index j
+          'LS': (['j'], 'wsum(self.project_lists[j])'),
+          'PS': (['j', 'rows', 'upto'], 'Sum(i, rows, Sum(c, len(self.pairs[i]), ite(self.pairs[i][c].project_index == j, W(self.pairs[i][c]), 0)))'
+                                        ' + Sum(c, upto, ite(self.pairs[rows][c].project_index == j, W(self.pairs[rows][c]), 0))')},
+
     loops={0: dict(invariant=['len(self.project_lists) == self.num_projects',
-                              'forall(k, 0, self.num_projects, forall(r, (ref(r) in elems(self.project_lists[k])) == (seen(ref(r), _k, 0) and ref(r).project_index == k)))']),
+                              'forall(k, 0, self.num_projects, forall(r, (ref(r) in elems(self.project_lists[k])) == (seen(ref(r), _k, 0) and ref(r).project_index == k)))',
+                              ('list-sums', 'forall(j, 0, self.num_projects, LS(j) == PS(j, _k, 0))')]),
            1: dict(invariant=['len(self.project_lists) == self.num_projects',
-                              'forall(k, 0, self.num_projects, forall(r, (ref(r) in elems(self.project_lists[k])) == (seen(ref(r), _k0, _k) and ref(r).project_index == k)))'])},
+                              'forall(k, 0, self.num_projects, forall(r, (ref(r) in elems(self.project_lists[k])) == (seen(ref(r), _k0, _k) and ref(r).project_index == k)))',
+                              ('list-sums', 'forall(j, 0, self.num_projects, LS(j) == PS(j, _k0, _k))')])},
+    use_lemmas={'loop1.body_end': [('SUM/ext', {'f': 'w_terms(self.project_lists[j], len(prev(self.project_lists)[j]))', 'g': 'w_terms(prev(self.project_lists)[j], len(prev(self.project_lists)[j]))',
+                                                'n': 'len(prev(self.project_lists)[j])'}, 'forall:j')]},
     modifies=['self.project_lists'],
     ensures=[('one-list-per-project', 'len(self.project_lists) == self.num_projects'),
-             ('project-list-holds-exactly-the-pairs-of-that-project', 'forall(k, 0, self.num_projects, forall(r, (ref(r) in elems(self.project_lists[k])) == (seen(ref(r), len(self.pairs), 0) and ref(r).project_index == k)))')]),
+             ('project-list-holds-exactly-the-pairs-of-that-project', 'forall(k, 0, self.num_projects, forall(r, (ref(r) in elems(self.project_lists[k])) == (seen(ref(r), len(self.pairs), 0) and ref(r).project_index == k)))'),
+             ('sum-over-each-list-is-the-sum-over-the-pairs-with-that-index-for-every-weight', 'forall(j, 0, self.num_projects, LS(j) == PS(j, len(self.pairs), 0))')]),
  M + 'set_lecturer_lists': dict(
     theory=['listsets'],
     requires=['sizes_ok(self)', 'pairs_ok(self)'],
     defs={'inrow': (['r', 'i', 'upto'], 'exists(c, 0, upto, self.pairs[i][c] == r)'),
-          'seen': (['r', 'rows', 'upto'], 'exists(i, 0, rows, inrow(r, i, len(self.pairs[i]))) or inrow(r, rows, upto)')},
+          'seen': (['r', 'rows', 'upto'], 'exists(i, 0, rows, inrow(r, i, len(self.pairs[i]))) or inrow(r, rows, upto)'),
+          # sum identity, for an ARBITRARY weight W of pair objects: the weights on list j add up to the weights of the pairs with index j
+          'LS': (['j'], 'wsum(self.lecturer_lists[j])'),
+          'PS': (['j', 'rows', 'upto'], 'Sum(i, rows, Sum(c, len(self.pairs[i]), ite(self.pairs[i][c].lecturer_index == j, W(self.pairs[i][c]), 0)))'
+                                        ' + Sum(c, upto, ite(self.pairs[rows][c].lecturer_index == j, W(self.pairs[rows][c]), 0))')},
+
     loops={0: dict(invariant=['len(self.lecturer_lists) == self.num_lecturers',
-                              'forall(k, 0, self.num_lecturers, forall(r, (ref(r) in elems(self.lecturer_lists[k])) == (seen(ref(r), _k, 0) and ref(r).lecturer_index == k)))']),
+                              'forall(k, 0, self.num_lecturers, forall(r, (ref(r) in elems(self.lecturer_lists[k])) == (seen(ref(r), _k, 0) and ref(r).lecturer_index == k)))',
+                              ('list-sums', 'forall(j, 0, self.num_lecturers, LS(j) == PS(j, _k, 0))')]),
            1: dict(invariant=['len(self.lecturer_lists) == self.num_lecturers',
-                              'forall(k, 0, self.num_lecturers, forall(r, (ref(r) in elems(self.lecturer_lists[k])) == (seen(ref(r), _k0, _k) and ref(r).lecturer_index == k)))'])},
+                              'forall(k, 0, self.num_lecturers, forall(r, (ref(r) in elems(self.lecturer_lists[k])) == (seen(ref(r), _k0, _k) and ref(r).lecturer_index == k)))',
+                              ('list-sums', 'forall(j, 0, self.num_lecturers, LS(j) == PS(j, _k0, _k))')])},
+    use_lemmas={'loop1.body_end': [('SUM/ext', {'f': 'w_terms(self.lecturer_lists[j], len(prev(self.lecturer_lists)[j]))', 'g': 'w_terms(prev(self.lecturer_lists)[j], len(prev(self.lecturer_lists)[j]))',
+                                                'n': 'len(prev(self.lecturer_lists)[j])'}, 'forall:j')]},
     modifies=['self.lecturer_lists'],
     ensures=[('one-list-per-lecturer', 'len(self.lecturer_lists) == self.num_lecturers'),
-             ('lecturer-list-holds-exactly-the-pairs-of-that-lecturer', 'forall(k, 0, self.num_lecturers, forall(r, (ref(r) in elems(self.lecturer_lists[k])) == (seen(ref(r), len(self.pairs), 0) and ref(r).lecturer_index == k)))')]),
+             ('lecturer-list-holds-exactly-the-pairs-of-that-lecturer', 'forall(k, 0, self.num_lecturers, forall(r, (ref(r) in elems(self.lecturer_lists[k])) == (seen(ref(r), len(self.pairs), 0) and ref(r).lecturer_index == k)))'),
+             ('sum-over-each-list-is-the-sum-over-the-pairs-with-that-index-for-every-weight', 'forall(j, 0, self.num_lecturers, LS(j) == PS(j, len(self.pairs), 0))')]),
 
  # ---- C18: the debug getter is read-only and does not raise
  P + '__str__': dict(inline=True),
